@@ -82,8 +82,13 @@ static vnacal_t *vcp = NULL;
    for c_nf = 0), anything else as the numbers returned. */
 static void pfrange(int ci)
 {
-    double fmin = vnacal_get_fmin(vcp, ci), fmax = vnacal_get_fmax(vcp, ci);
-    if (vnacal_get_frequencies(vcp, ci) == 0 && fmin == HUGE_VAL && fmax == HUGE_VAL) {
+    double fmin, fmax;
+    int e1, e2, saved = errno;
+    errno = 0; fmin = vnacal_get_fmin(vcp, ci); e1 = errno;
+    errno = 0; fmax = vnacal_get_fmax(vcp, ci); e2 = errno;
+    errno = saved;
+    /* nofreq only when BOTH getters answer HUGE_VAL with errno EINVAL */
+    if (vnacal_get_frequencies(vcp, ci) == 0 && fmin == HUGE_VAL && fmax == HUGE_VAL && e1 == EINVAL && e2 == EINVAL) {
 	printf("nofreq:nofreq");
 	return;
     }
